@@ -53,6 +53,13 @@ def block(c, cat):
         o.append('    ht::check((std::is_same_v<decltype(%s), %s&&>), cid, "container not returned as an rvalue");' % (call, C))
         o.append('    ht::check(a%d.items.size() == 2 && a%d.items[0] == -7 && a%d.items[1] == %d, cid, "the element is not appended after the existing contents");' % (c['cont'], c['cont'], c['cont'], c['elem']))
         o.append('    ht::check(ht::copies == 0 && ht::moves == 0, cid, "the container or an argument was copied or moved");')
+        if h == 'push_back' and cat != 'mo':
+            # container and element of ONE recursive type (each has a push_back taking the other): the template's indices decide
+            rargs = ', '.join(('std::move(q%d)' % k) if mv else 'q%d' % k for k in range(1, n + 1))
+            o.append('    ' + ' '.join('ht::RNode q%d(%d);' % (k, k) for k in range(1, n + 1)))
+            o.append('    decltype(auto) rr = ctpg::ftors::push_back<%d, %d>{}(%s);' % (i, j, rargs))
+            o.append('    ht::check((const void*)&rr == (const void*)&q%d, cid, "recursive value type: does not return the container argument");' % c['cont'])
+            o.append('    ht::check(q%d.items.size() == 1 && q%d.items[0] == %d && q%d.items.empty(), cid, "recursive value type: the container was appended to the element");' % (c['cont'], c['cont'], c['elem'], c['elem']))
         o.append('    ht::check(%s, cid, "an argument was modified");' % intact)
     elif h == 'val':
         call = 'ctpg::ftors::val(42)(%s)' % args
